@@ -13,7 +13,9 @@ LEVEL = {
         "reader on every operation, every 64-bit argument and every finite history, nested to any depth; typed-helper size theorems; the guards, "
         "cursor updates and memcpy extents of MemoryReader and SliceReader<FileReader> are re-translated from the clang AST on every run and "
         "proved equal to the model's on all 64-bit values (C12_gen_*); exhaustive short histories + random long ones on the real classes under "
-        "ASan/UBSan compared with the compiled model and with an independent Python oracle",
+        "ASan/UBSan compared with the compiled model and with an independent Python oracle; ReadNullTerminatedString(maxCount) proved against "
+        "its description (NUL-free prefix, terminator consumed, never more than maxCount, error when the data ends first) for MemoryReader, "
+        "FileReader, and slices nested to any depth",
  "C13": "slice-creation guard exactness (incl. wrap-around), window theorem to any nesting depth, slice-here and backend-equivalence theorems in "
         "Lean 4; SliceReader's constructor, Initialize and both Slice overloads re-translated from the clang AST on every run and proved equal to "
         "the model (C13_gen_*); real-class runs: creation lattice, interleaved multi-object histories with an independence oracle, "
